@@ -15,12 +15,16 @@ RULE = ("a case is a typed list or dict field (item/key/value families with conc
         "another field, range, string, non-dict mapping, pairs, keywords); each operation is first applied to a "
         "builtin list/dict of model normal forms (skipped when the builtin rejects it) and then to the proxy: "
         "contents, order, length, return value and result types are compared after every step; copies, + and += "
-        "results must stay typed (they must reject an invalid item); non-trivial = >= 2 operations compared with "
+        "results must stay typed (they must reject an invalid item); text items whose normalisation is not idempotent (a "
+        "stored item must not pass through the field again); for lists of configurations one object is handed to the lists of "
+        "two configurations and compared, also after it was changed, with the builtin list given the same objects; non-trivial = >= 2 operations compared with "
         ">= 1 mutation; distinct = distinct (field, history)")
 REQUIRED = ("dict_equality_with_a_sibling_field", "setdefault_lookups_of_existing_keys", "update_keywords_named_like_parameters", "positions_given_as_index_objects", "members_equal_up_to_an_inner_default_changed_in_place", "dict_equality_with_a_twin_configuration", "list_equality_with_a_twin_configuration", "dict_equality_queries", "list_equality_queries", "config_item_lists", "ops_compared", "list_ops_compared", "dict_ops_compared", "typed_result_probes", "op:setslice", "op:ior",
             "op:setdefault", "op:update", "op:extend", "op:iadd", "iter:iter", "iter:proxy_other", "iter:mapping",
             "update:proxy_same+kwargs", "update:proxy_other+kwargs", "update:pairs+kwargs", "iter:gen_dedup", "iter:multimap",
-            "sorts_with_key_and_reverse", "members_removed_by_object", "equal_members_added")
+            "sorts_with_key_and_reverse", "members_removed_by_object", "equal_members_added",
+            "members_shared_between_two_configurations", "shared_members_changed_afterwards",
+            "concatenations_of_lists_holding_items_a_second_pass_would_change")
 ASSUMPTIONS = ["operations the builtin rejects are skipped; operations with an argument the model labels invalid "
                "must raise and are followed by a resynchronisation of the model (partial application of multi-element "
                "operations is not part of this property)"]
@@ -35,6 +39,44 @@ def _mkfield(rng, fam):
     return f
 
 
+def _restrip_field(rng):
+    """A text field whose normalisation is not idempotent: characters are stripped in one case only and the text is then
+    turned into that case ('Xax' with strip 'x' + lower is stored as 'xa'; a second pass would make it 'a').  What a typed
+    list holds is the normal form: an operation that passes stored items through the field again shows up as a difference."""
+    lower = rng.random() < 0.5
+    letters = rng.sample("abqxyz", rng.choice([1, 1, 2]))
+    p = {"transform_strip": "".join(c if lower else c.upper() for c in letters) + rng.choice(["", "", "-", " ", "_."]),
+         "transform_case": rng.choice(["lower", "LOWER"] if lower else ["upper", "Upper"])}
+    if rng.random() < 0.3:
+        p["min_len"] = rng.choice([0, 1, 2])
+    if rng.random() < 0.2:
+        p["max_len"] = rng.choice([5, 8])
+    return {"kind": "field", "family": "str", "params": p}
+
+
+def _edge_chars(f):
+    """Characters that survive the field's strip but turn into stripped ones through its case transform."""
+    if not f or f.get("kind", "field") != "field" or f.get("family") != "str":
+        return []
+    strip, case = f.get("params", {}).get("transform_strip"), f.get("params", {}).get("transform_case")
+    if not isinstance(strip, str) or not case:
+        return []
+    low = case.lower() == "lower"
+    out = []
+    for c in strip:
+        if c.isalpha() and (c.islower() if low else c.isupper()):
+            e = c.upper() if low else c.lower()
+            if e not in strip and e != c:
+                out.append(e)
+    return out
+
+
+def _edge_value(rng, f, edges):
+    e = rng.choice(edges)
+    core = rng.choice(["a", "core", "Mid", "k9", "x", "yb", "Zq", "abc", "b-b", "Q", ""])
+    return rng.choice(["", "", f["params"]["transform_strip"][0]]) + e * rng.choice([1, 1, 2]) + core + rng.choice(["", e, e])
+
+
 def _vals(rng, f, n, bad=0.0):
     if f.get("kind") in ("schema", "ctype"):
         out = []
@@ -43,8 +85,14 @@ def _vals(rng, f, n, bad=0.0):
             out.append(t if rng.random() < 0.95 else rng.choice([5, "x", None]))
         return out
     out = []
+    edges = _edge_chars(f)
     for _ in range(n):
         want = "invalid" if rng.random() < bad else "valid"
+        if edges and want == "valid" and rng.random() < 0.65:
+            v = _edge_value(rng, f, edges)
+            if model.accepts(f, v)[0] is True:
+                out.append(v)
+                continue
         v = gen.one_value(rng, f, want)
         if v is None and want == "valid" and rng.random() < 0.8:
             v = gen.one_value(rng, f, "valid")
@@ -84,8 +132,15 @@ def generate(rng, ctx):
             item = sub if rng.random() < 0.5 else {"kind": "ctype", "key": "", "name": "CI", "schema": sub}
         else:
             item = _mkfield(rng, rng.choice(ITEM_FAMS))
+            if rng.random() < (0.5 if item["family"] == "str" else 0.1):
+                item = _restrip_field(rng)
+        restrip = bool(_edge_chars(item))
         f = {"kind": "field", "key": "c", "family": "list", "params": {}, "item": item}
         kinds = ["list", "tuple", "iter", "gen", "proxy_same", "list", "iter"] + ([] if cfg_items else ["proxy_other"])
+        if restrip:
+            # (whether the items of another typed list of this field are "put in" as they are or normalised once more is the
+            # same for every idempotent field; here it is not, and the property does not settle it: not generated)
+            kinds = [k for k in kinds if k != "proxy_same"]
         if item.get("family") in ("int", "float", "port", "bool"):
             kinds.append("range")
         if item.get("family") == "str":
@@ -93,7 +148,7 @@ def generate(rng, ctx):
         ops = []
         for _ in range(nops):
             name = weighted(rng, [(4, "append"), (3, "insert"), (4, "extend"), (3, "setitem"), (5, "setslice"),
-                                  (3, "iadd"), (2, "add"), (1, "mul"), (1, "imul"), (2, "copy"), (2, "pop"), (1, "remove"),
+                                  (3, "iadd"), (6 if restrip else 2, "add"), (1, "mul"), (1, "imul"), (2, "copy"), (2, "pop"), (1, "remove"),
                                   (1, "delitem"), (1, "delslice"), (1, "sort"), (1, "reverse"), (0.5, "clear"),
                                   (2, "query")])
             if cfg_items and name in ("remove", "sort", "imul", "mul", "query"):
@@ -126,6 +181,17 @@ def generate(rng, ctx):
                 op["i"] = rng.randrange(0, 6)
             ops.append(op)
         init = _vals(rng, item, rng.choice([0, 1, 3, 5]))
+        if restrip and not init:
+            init = _vals(rng, item, 2)
+        if cfg_items:
+            # one configuration object as an item of the lists of two configurations of the schema
+            shared = []
+            for _ in range(2):
+                shared.append({"xs": _vals(rng, item, rng.choice([1, 2, 3]), 0.0), "own": _vals(rng, item, rng.choice([0, 1, 2]), 0.0),
+                               "i": rng.randrange(0, 3), "pos": rng.randrange(-2, 3),
+                               "via": rng.choice(["append", "insert", "extend_list", "extend_iter", "extend_proxy", "iadd_proxy", "add_list",
+                                                  "add_proxy", "setslice", "setitem", "assign_list", "assign_proxy"]),
+                               "change": gen.tree_for(rng, item, None, valid=True, partial=0.0)})
     else:
         kf = _mkfield(rng, rng.choice(KEY_FAMS)) if rng.random() < 0.9 else None
         vf = _mkfield(rng, rng.choice(ITEM_FAMS)) if rng.random() < 0.9 or kf is None else None
@@ -176,7 +242,11 @@ def generate(rng, ctx):
 
     tidy(init)
     tidy(ops)
-    return {"field": f, "init": init, "ops": ops}
+    case = {"field": f, "init": init, "ops": ops}
+    if f["family"] == "list" and cfg_items:
+        tidy(shared)
+        case["shared"] = shared
+    return case
 
 
 # ------------------------------------------------------------------------------------------------
@@ -301,6 +371,121 @@ def run(case, ctx, res):
             return
     if compared >= 2 and mutations >= 1:
         res.nontrivial(case["field"], case["init"], case["ops"])
+    for sh in case.get("shared") or ():
+        d = _shared_member(cc, cfg, f, sh, res)
+        if d:
+            res.viol("M-differential", "list.%s(member of another configuration's list)" % sh["via"], "%s: %s" % (_opstr(sh), d))
+            return
+
+
+def _shared_member(cc, cfg, f, sh, res):
+    """One configuration object put into the typed lists of two configurations of the schema.  The builtin list that is given
+    the same objects is the oracle (no model): contents, length and the answers to in / index / count / remove must agree
+    right after the hand-over and after the object was changed through the reference the caller kept."""
+    item = f["item"]
+
+    def trees(xs):
+        return [spec.realize(cc, x) for x in xs if isinstance(x, dict) and _norm_item(item, x)[0] is True]
+
+    try:
+        first, second = cfg._schema(), cfg._schema()
+        first.c = trees(sh["xs"])
+        second.c = trees(sh["own"])
+        held, target = first.c, second.c
+        if not held or target is None:
+            return None
+    except Exception:
+        return None  # (what the field makes of the trees is judged by the histories)
+    blist = list(target)
+    member = held[sh["i"] % len(held)]
+    via, pos = sh["via"], sh["pos"]
+    try:
+        if via == "append":
+            target.append(member)
+            blist.append(member)
+        elif via == "insert":
+            target.insert(pos, member)
+            blist.insert(pos, member)
+        elif via == "extend_list":
+            target.extend([member])
+            blist.extend([member])
+        elif via == "extend_iter":
+            target.extend(iter((member,)))
+            blist.extend(iter((member,)))
+        elif via == "extend_proxy":
+            target.extend(held)
+            blist.extend(list(held))
+        elif via == "iadd_proxy":
+            target = target.__iadd__(held)
+            blist += list(held)
+        elif via == "add_list":
+            target = target + [member]
+            blist = blist + [member]
+        elif via == "add_proxy":
+            target = target + held
+            blist = blist + list(held)
+        elif via == "setslice":
+            target[0:1] = iter([member])
+            blist[0:1] = [member]
+        elif via == "setitem":
+            if not blist:
+                return None
+            target[pos % len(blist)] = member
+            blist[pos % len(blist)] = member
+        elif via == "assign_list":
+            second.c = [member] + blist
+            target, blist = second.c, [member] + blist
+        else:
+            second.c = held
+            target, blist = second.c, list(held)
+    except Exception:
+        res.count("shared_member_hand_over_refused")
+        return None
+    res.count("members_shared_between_two_configurations")
+
+    def differs(when):
+        if not isinstance(target, list):
+            return "%s: the value is a %s" % (when, type(target).__name__)
+        got, want = [plain(m) for m in target], [plain(m) for m in blist]
+        if len(target) != len(blist) or not eqstar(got, want):
+            return "%s: the typed list holds %r, the builtin list given the same objects holds %r" % (when, got, want)
+        return None
+
+    d = differs("after the hand-over")
+    if d:
+        return d
+    before = plain(member)
+    for key, raw in sorted(sh["change"].items()):
+        try:
+            if key == "ztags":
+                member.ztags.append("zz")
+            elif not isinstance(raw, (dict, list)):
+                setattr(member, key, spec.realize(cc, raw))
+        except Exception:
+            pass
+    if not eqstar(plain(member), before):
+        res.count("shared_members_changed_afterwards")
+    d = differs("after the object was changed")
+    if d:
+        return d
+    try:
+        checks = [("in", member in target, member in blist), ("count", target.count(member), blist.count(member)),
+                  ("index", target.index(member), blist.index(member))]
+    except Exception as exc:
+        return "a query with the object raised %r, the builtin list answers it" % (exc,)
+    for what, a, b in checks:
+        if a != b:
+            return "%s of the object gives %r, the builtin list gives %r" % (what, a, b)
+    try:
+        got = target.remove(member)
+    except Exception as exc:
+        return "remove(object) raised %r, the builtin list removes it" % (exc,)
+    blist.remove(member)
+    if got is not None:
+        return "remove returned %r" % (got,)
+    if len(held) != len(first.c) or not any(m is member for m in first.c):
+        return "the list the object was taken from lost it"
+    return differs("after remove(object)")
 
 
 def _has_nan(vals):
@@ -617,6 +802,8 @@ def _list_op(cc, cfg, f, proxy, ref, op, res):
         except Exception as exc:
             return "viol", "raised %r for acceptable items (normal forms %r)" % (exc, norms)
         if name == "add":
+            if _edge_chars(item) and any(not eqstar(_norm_item(item, r)[1], r) for r in ref):
+                res.count("concatenations_of_lists_holding_items_a_second_pass_would_change")
             if not eqstar(list(plain(result)), trial):
                 return "viol", "+ gives %r, builtin gives %r" % (list(plain(result)), trial)
             bad = _probe_typed(res, result, f, "the result of +", True)
